@@ -275,7 +275,7 @@ func init() {
 		}
 		// wide parents with a repeated sibling: k distinct children, then child i written again with a child of its own
 		// (it must merge into the i-th), for every k around the small thresholds and every i
-		for _, k := range []int{7, 8, 9, 10, 11, 16, 17, 32, 33} {
+		for _, k := range []int{7, 8, 9, 10, 11, 16, 17, 32, 33, 34, 35, 64, 65} {
 			for i := 0; i < k; i++ {
 				if !c.Take() || c.Expired() {
 					continue
@@ -315,7 +315,7 @@ func init() {
 			}
 		}
 		// hostile names; From-Root additionally gets names Markdown cannot spell (empty, multi-line)
-		rootOnly := []string{"", "a\nb", " a\nb", "\na", "\ta\nb", "\n", "a\r\nb ", " \n"}
+		rootOnly := []string{"", "a\nb", " a\nb", "\na", "\ta\nb", "\n", "a\r\nb ", " \n", "\u2028\nb", "\u2029\n#", "\u0085\nb"}
 		all := append(append([]string{}, c04Hostile...), rootOnly...)
 		for n := 1; n <= maxH && !c.Expired(); n++ {
 			enum.DepthSeqs(n, func(d []int) {
